@@ -263,6 +263,45 @@ example : TreeOk exTree' ∧ ∃ s, PReach exTiny s ∧ s.final ∧ s.emitted = 
   have r4 := PReach.step _ _ r3 (PStep.done _ [] [] _ rfl rfl rfl)
   exact ⟨_, r4, ⟨rfl, rfl⟩, by decide⟩
 
+/-! ## the rules of a directory depend only on the bytes its ignore-file name resolves to -/
+
+/-- the one loader: whatever the shape of the entry, the patterns are those of the resolved bytes -/
+theorem C09_rules_of_resolved_bytes (here : Str) (e1 e2 : IgnoreEntry) (h : e1.resolve = e2.resolve) :
+    rulesOf here (e1.resolve.getD []) = rulesOf here (e2.resolve.getD []) := by rw [h]
+
+/-- a regular file, a hard link and a symbolic link (any chain, any target location) to the same bytes load the
+    same rules; a dangling link and a link to a directory load nothing, like an absent file -/
+theorem C09_link_shapes (here b : Str) :
+    rulesOf here ((IgnoreEntry.symlink (some b)).resolve.getD []) = rulesOf here ((IgnoreEntry.regular b).resolve.getD []) ∧
+    rulesOf here ((IgnoreEntry.hardLink b).resolve.getD []) = rulesOf here ((IgnoreEntry.regular b).resolve.getD []) ∧
+    rulesOf here ((IgnoreEntry.symlink none).resolve.getD []) = [] ∧
+    rulesOf here (IgnoreEntry.symlinkToDir.resolve.getD []) = [] ∧ rulesOf here (IgnoreEntry.absent.resolve.getD []) = [] := by
+  refine ⟨rfl, rfl, ?_, ?_, ?_⟩ <;> simp [IgnoreEntry.resolve, rulesOf, contentToPatterns, rustLines, rustLinesAux]
+
+/-- **Shape independence.**  Two workspaces that differ only in the shapes of their ignore files (same resolved
+    bytes everywhere) are the same workspace for every walker: the same `walkSpec`, the same rule collection of
+    `check-ignore`, and — through `C09_every_schedule` — the same emitted set for every schedule of the parallel
+    walker and every enumeration order of the serial one. -/
+theorem C09_shape_independent (s1 s2 : ShapedTree) (h : s1.resolved = s2.resolved) :
+    walkSpec s1.resolved = walkSpec s2.resolved ∧ allRules s1.resolved = allRules s2.resolved ∧
+    ∀ (st1 st2 : PState), TreeOk s1.resolved → PReach s1.resolved st1 → PReach s2.resolved st2 → st1.final → st2.final →
+      ∀ p, p ∈ st1.emitted ↔ p ∈ st2.emitted := by
+  refine ⟨by rw [h], by rw [h], ?_⟩
+  intro st1 st2 hok r1 r2 f1 f2 p
+  have hok2 : TreeOk s2.resolved := by rw [← h]; exact hok
+  rw [(C09_every_schedule _ hok st1 r1).2 f1 p, (C09_every_schedule _ hok2 st2 r2).2 f2 p, h]
+
+/-- the seeded scenario C09-3 in both shapes: `data/.xvcignore` a regular file or a link to a shared rule file -/
+example :
+    let sub (ig : IgnoreEntry) : ShapedTree := .node .absent ["a.tmp".toList]
+      [("data".toList, .node ig [".xvcignore".toList, "a.tmp".toList, "b.dat".toList] [("sub".toList, .node .absent ["c.tmp".toList, "d.dat".toList] [])]),
+       ("other".toList, .node .absent ["o.tmp".toList] [])]
+    (sub (.symlink (some "*.tmp\n".toList))).resolved = (sub (.regular "*.tmp\n".toList)).resolved ∧
+    walkSpec (sub (.symlink (some "*.tmp\n".toList))).resolved =
+      ["/a.tmp", "/data", "/data/.xvcignore", "/data/b.dat", "/data/sub", "/data/sub/d.dat", "/other", "/other/o.tmp"].map String.toList ∧
+    walkSpec (sub (.symlink none)).resolved = walkSpec (sub .absent).resolved := by
+  refine ⟨rfl, by decide, rfl⟩
+
 /-- a concrete interference: everything checked outside `/a` also sees the patterns of `a/.xvcignore` -/
 def exExtra (p : Str) : List Pattern :=
   if Under "/a".toList p then [] else [Pattern.new (.file "a".toList) "x.bak".toList, Pattern.new (.file "a".toList) "!*.txt".toList]
@@ -414,6 +453,12 @@ open Ign in
 #print axioms C09_every_schedule
 open Ign in
 #print axioms C09_two_runs_agree
+open Ign in
+#print axioms C09_rules_of_resolved_bytes
+open Ign in
+#print axioms C09_link_shapes
+open Ign in
+#print axioms C09_shape_independent
 open Ign in
 #print axioms C09_collect_deterministic
 open Ign in
